@@ -96,16 +96,19 @@ fn hook(y: Yield) {
 }
 
 #[allow(static_mut_refs)]
-pub fn p_two_writers<const B_AT: u8, const POLL_AT: u8>() {
+/// EPH: 0 stored, 1 ephemeral, 2 solver-chosen
+#[allow(static_mut_refs)]
+pub fn p_two_writers_k<const B_AT: u8, const POLL_AT: u8, const EPH: u8>() {
     env::reset_all();
     env::fjall::set_limit(2);
     let sut = mk_store(4);
     let mut follower = sut.store.broadcast_tx.subscribe();
     unsafe {
-        WS = W { store: Some(sut.store.clone()), b_at: B_AT, b_done: false, b_eph: nd::any_bool(), poll_at: POLL_AT, last_seen: 0, seen: [0; 4], nseen: 0, in_a: true };
+        WS = W { store: Some(sut.store.clone()), b_at: B_AT, b_done: false, b_eph: if EPH == 2 { nd::any_bool() } else { EPH == 1 }, poll_at: POLL_AT, last_seen: 0, seen: [0; 4], nseen: 0, in_a: true };
         sched::YIELD_HOOK = Some(hook);
     }
-    env::stdm::time::set_clock(5000);
+    // solver-chosen residue: the wall clock (the ids' 48-bit timestamp)
+    env::stdm::time::set_clock(nd::any_u64() & 0xFFFF_FFFF_FFFF);
     // writer A (its gaps host B and the poller)
     let ra = sut.store.append(mk_frame("a".to_string(), 0, 0, None));
     if ra.is_err() {
@@ -114,8 +117,10 @@ pub fn p_two_writers<const B_AT: u8, const POLL_AT: u8>() {
     unsafe { WS.in_a = false };
     // B runs after A if it did not nest
     run_b();
-    // final poll: the client catches up
-    poll();
+    // final poll: the client catches up (POLL_AT 9 = an instance without the polling client)
+    if POLL_AT != 9 {
+        poll();
+    }
     let a_id = match &ra {
         Ok(f) => f.id.to_u128(),
         Err(_) => 0,
@@ -131,7 +136,7 @@ pub fn p_two_writers<const B_AT: u8, const POLL_AT: u8>() {
     hx_check!(i1 < i2, "C02 live subscribers are sent frames in increasing id order");
     // poller: every stored frame exactly once
     let stored = if unsafe { WS.b_eph } { 1 } else { 2 };
-    let ns = unsafe { WS.nseen };
+    let ns = if POLL_AT == 9 { stored } else { unsafe { WS.nseen } };
     hx_check!(ns == stored, "C02 a client polling with last-id = the last frame it saw receives every stored frame exactly once, however the writers interleave");
     let mut seen_a = false;
     let mut i = 0;
@@ -141,9 +146,10 @@ pub fn p_two_writers<const B_AT: u8, const POLL_AT: u8>() {
         }
         i += 1;
     }
-    hx_check!(seen_a, "C02 no frame becomes visible below an id the reader has already observed");
+    hx_check!(seen_a || POLL_AT == 9, "C02 no frame becomes visible below an id the reader has already observed");
     let m = env::trace::mon();
     hx_check!(!m.id_order_violation, "C01 successive appends receive strictly increasing ids");
+    hx_check!(!m.visible_order_violation, "C02 frames become visible in increasing id order: no frame appears below an id a reader may already have observed");
     hx_cover!(ns == stored || B_AT <= 2, "the poller saw every stored frame (or B was nested before A's broadcast)");
     unsafe {
         sched::YIELD_HOOK = None;
@@ -188,13 +194,20 @@ pub fn p_seq_ids() {
 
 crate::scenarios! {
     unwind 50;
-    p_two_writers_0_0 => p_two_writers::<0, 0>();
-    p_two_writers_0_1 => p_two_writers::<0, 1>();
-    p_two_writers_1_1 => p_two_writers::<1, 1>();
-    p_two_writers_2_2 => p_two_writers::<2, 2>();
-    p_two_writers_3_3 => p_two_writers::<3, 3>();
-    p_two_writers_4_0 => p_two_writers::<4, 0>();
-    p_two_writers_4_4 => p_two_writers::<4, 4>();
-    p_two_writers_1_4 => p_two_writers::<1, 4>();
+    nul_free_topics;
+    p_two_writers_0_9_s => p_two_writers_k::<0, 9, 0>();
+    p_two_writers_0_9_e => p_two_writers_k::<0, 9, 1>();
+    p_two_writers_1_9_s => p_two_writers_k::<1, 9, 0>();
+    p_two_writers_1_9_e => p_two_writers_k::<1, 9, 1>();
+    p_two_writers_2_9_s => p_two_writers_k::<2, 9, 0>();
+    p_two_writers_2_9_e => p_two_writers_k::<2, 9, 1>();
+    p_two_writers_3_9_s => p_two_writers_k::<3, 9, 0>();
+    p_two_writers_3_9_e => p_two_writers_k::<3, 9, 1>();
+    p_two_writers_4_0_s => p_two_writers_k::<4, 0, 0>();
+    p_two_writers_4_0_e => p_two_writers_k::<4, 0, 1>();
+    p_two_writers_4_4_s => p_two_writers_k::<4, 4, 0>();
+    p_two_writers_4_4_e => p_two_writers_k::<4, 4, 1>();
+    p_two_writers_3_4_s => p_two_writers_k::<3, 4, 0>();
+    p_two_writers_3_4_e => p_two_writers_k::<3, 4, 1>();
     p_seq_ids_all => p_seq_ids();
 }
